@@ -386,6 +386,21 @@ func cmdCheck(args []string) int {
 			}
 		}
 	}
+	// bounded stand-ins: real functions beyond the verifier's reach, explored exhaustively up to a stated bound.
+	// They are reported separately and never counted as proved.
+	var bounded []map[string]interface{}
+	if *prop != "" && *only == "" && *fnOnly == "" {
+		var br int
+		bounded, br = runBounded(w, *verifDir, *prop, *tier, known)
+		if br > exit {
+			exit = br
+		}
+		for _, b := range bounded {
+			if b["result"] == "violation" {
+				nViol++
+			}
+		}
+	}
 	for _, u := range undecided {
 		fmt.Printf("UNDECIDED: %s\n", u)
 	}
@@ -396,7 +411,7 @@ func cmdCheck(args []string) int {
 	wall := time.Since(t0).Seconds()
 	if !*noEvidence && *prop != "" && *only == "" && *fnOnly == "" {
 		level := "proof"
-		if len(undecided) > 0 || nDis < nProof-len(knownHit) {
+		if len(undecided) > 0 || nDis < nProof-len(knownHit) || len(bounded) > 0 {
 			level = "other"
 		}
 		var tb []string
@@ -418,6 +433,7 @@ func cmdCheck(args []string) int {
 				"known_findings_reported": knownHit, "undecided": undecided, "vacuous_paths": vacuous,
 				"explanation": fmt.Sprintf("%d proof obligations generated from the SSA of %d functions of /repo's working tree against contracts in *_verif.go; %d discharged (unsat), %d listed known findings, %d violations; %d cover (vacuity) queries", nProof, len(frs), nDis, len(knownHit), nViol, len(obls)-nProof),
 				"load_s": tLoad.Seconds(), "solve_s": tSolve.Seconds(), "solver_ms_total": solverMs,
+				"bounded_stand_ins": bounded,
 			},
 			"assumptions": append([]string{
 				"no goroutine interleaving semantics: each function body is verified sequentially; lock invariants stand in for other threads",
@@ -425,6 +441,27 @@ func cmdCheck(args []string) int {
 				"bodies of functions outside the module enter only through the models / assumed contracts listed in trusted_base",
 				"termination is not proved",
 			}, tb...),
+		}
+		if len(bounded) > 0 {
+			cov := ev["coverage"].(map[string]interface{})
+			evals, distinct := 0, 0
+			var rules []string
+			for _, b := range bounded {
+				if n, ok := b["evaluations"].(int); ok {
+					evals += n
+				}
+				if n, ok := b["distinct"].(int); ok {
+					distinct += n
+				}
+				rules = append(rules, fmt.Sprintf("%v: %v", b["id"], b["bound"]))
+				if smp, ok := b["sample"].(string); ok && smp != "" {
+					cov["samples"] = append(cov["samples"].([]interface{}), map[string]interface{}{"bounded_stand_in": b["id"], "case": smp})
+				}
+			}
+			cov["evaluations"] = evals
+			cov["distinct_nontrivial"] = distinct
+			cov["rule"] = "bounded stand-ins (NOT proofs), each an exhaustive enumeration on the real functions up to the stated bound; distinct = distinct reached states/cases as counted by the harness. " + strings.Join(rules, " | ")
+			cov["explanation"] = cov["explanation"].(string) + fmt.Sprintf("; %d bounded stand-in(s) for functions beyond the verifier's reach, reported under bounded_stand_ins and not counted as proved", len(bounded))
 		}
 		data, _ := json.MarshalIndent(ev, "", " ")
 		os.WriteFile(filepath.Join(*verifDir, "evidence", *prop+".json"), data, 0o644)
@@ -441,6 +478,107 @@ func cmdCheck(args []string) int {
 		}
 	}
 	return exit
+}
+
+// runBounded runs the bounded stand-ins registered for a property in bounded/bounded.json.
+func runBounded(w *World, verifDir, prop, tier string, known []finding) ([]map[string]interface{}, int) {
+	data, err := os.ReadFile(filepath.Join(verifDir, "bounded", "bounded.json"))
+	if err != nil {
+		return nil, 0
+	}
+	var bs []struct {
+		ID         string            `json:"id"`
+		Property   string            `json:"property"`
+		Package    string            `json:"package"`
+		File       string            `json:"file"`
+		Test       string            `json:"test"`
+		StandsFor  string            `json:"stands_in_for"`
+		Bound      map[string]string `json:"bound"` // per tier
+		Timeout    map[string]int    `json:"timeout_s"`
+	}
+	if err := json.Unmarshal(data, &bs); err != nil {
+		fmt.Printf("BROKEN-CHECK: bounded/bounded.json: %v\n", err)
+		return nil, 2
+	}
+	var out []map[string]interface{}
+	exit := 0
+	for _, b := range bs {
+		if b.Property != prop {
+			continue
+		}
+		src, err := os.ReadFile(filepath.Join(verifDir, "bounded", b.File))
+		if err != nil {
+			fmt.Printf("BROKEN-CHECK: bounded stand-in %s: %v\n", b.ID, err)
+			exit = 2
+			continue
+		}
+		to := b.Timeout[tier]
+		if to == 0 {
+			to = 300
+		}
+		t0 := time.Now()
+		o, failed := runOverlayTest(w.Repo, filepath.Join(w.Repo, b.Package), "zz_lbvc_bounded_test.go", string(src), b.Test, to, "LBVC_TIER="+tier)
+		rec := map[string]interface{}{"id": b.ID, "stands_in_for": b.StandsFor, "bound": b.Bound[tier], "label": "bounded (not a proof)", "wall_s": time.Since(t0).Seconds()}
+		for _, line := range strings.Split(o, "\n") {
+			if i := strings.Index(line, "LBVC-BOUNDED-STATS "); i >= 0 {
+				for _, f := range strings.Fields(line[i+len("LBVC-BOUNDED-STATS "):]) {
+					kv := strings.SplitN(f, "=", 2)
+					if len(kv) == 2 {
+						if n, err := strconv.Atoi(kv[1]); err == nil {
+							rec[kv[0]] = n
+						} else {
+							rec[kv[0]] = kv[1]
+						}
+					}
+				}
+			}
+			if i := strings.Index(line, "LBVC-BOUNDED-SAMPLE "); i >= 0 {
+				rec["sample"] = line[i+len("LBVC-BOUNDED-SAMPLE "):]
+			}
+		}
+		switch {
+		case !failed && strings.Contains(o, "LBVC-BOUNDED-STATS"):
+			rec["result"] = "held"
+		case failed && strings.Contains(o, "LBVC-BOUNDED-VIOLATION"):
+			what := ""
+			for _, line := range strings.Split(o, "\n") {
+				if i := strings.Index(line, "LBVC-BOUNDED-VIOLATION"); i >= 0 {
+					what = strings.TrimSpace(line[i:])
+					break
+				}
+			}
+			name := "bounded:" + b.ID
+			isK := false
+			for _, k := range known {
+				if k.Obl == name && k.Prop == prop {
+					fmt.Printf("KNOWN-FINDING: property=%s %s: %s\n", prop, name, k.What)
+					isK = true
+				}
+			}
+			if isK {
+				rec["result"] = "known-finding"
+				break
+			}
+			rec["result"] = "violation"
+			rec["what"] = what
+			os.MkdirAll(filepath.Join(verifDir, "evidence", "replay"), 0o755)
+			path := filepath.Join(verifDir, "evidence", "replay", prop+"-bounded-"+b.ID+".json")
+			rj, _ := json.MarshalIndent(map[string]interface{}{"property": prop, "obligation": name, "kind": "bounded stand-in", "bound": b.Bound[tier],
+				"replay": "the failing case was produced by running the real functions (go test -overlay " + b.File + " -run " + b.Test + ")", "what": what, "output": tail(o, 8000)}, "", " ")
+			os.WriteFile(path, rj, 0o644)
+			fmt.Printf("VIOLATION property=%s replay=%s\n", prop, path)
+			fmt.Printf("  failed bounded stand-in %s: %s\n", b.ID, what)
+			if exit == 0 {
+				exit = 1
+			}
+		default:
+			rec["result"] = "broken"
+			fmt.Printf("BROKEN-CHECK: bounded stand-in %s did not run to completion: %s\n", b.ID, tail(o, 600))
+			exit = 2
+		}
+		out = append(out, rec)
+	}
+	return out, exit
 }
 
 func writeReplay(verifDir, prop string, o *Obligation) string {
